@@ -97,13 +97,20 @@ RefOf(st, ip) == IF ip \in DOMAIN st.refcnt THEN st.refcnt[ip] ELSE 0
 GratRes(st, adv, Resp) ==
   IF RefOf(st, adv.ip) <= 0 THEN {} ELSE {r \in Resp : Covers(adv, r)}
 
-(* arpResponder.processRequest *)
-ArpRes(st, aop, dst, target, intf) ==
+(* arpResponder.processRequest.  `dst` is the destination of the Ethernet   *)
+(* frame, `tha` the target-hardware-address field inside the ARP packet     *)
+(* (zero in ordinary requests and in Linux' unicast re-validation probes,   *)
+(* the node's or any other address otherwise): two independent fields, and  *)
+(* only the former says whether the frame is for this machine.              *)
+ArpRes(st, aop, dst, tha, target, intf) ==
   IF aop # "request" THEN "arpReply"
   ELSE IF dst \notin {"self", "bcast"} THEN "ethernetDestination"
   ELSE LET q == QueryRes(st, target, intf) IN IF q = "none" THEN "reply" ELSE q
 
 (* ndpResponder.processRequest *)
+(* kinds: "ns" solicitation with a source link-layer option, "ns2" the same  *)
+(* with a target-direction option in front of it (options are looked up by  *)
+(* meaning, not by position), "nsNoLL" without a source option, "na"        *)
 NdpRes(st, kind, target, intf) ==
   IF kind = "na" THEN "messageType"
   ELSE IF kind = "nsNoLL" THEN "noSourceLL"
@@ -128,9 +135,9 @@ GratuitousOnlyHeld(st, ann, Advs, Resp) ==
 
 (* only ARP requests addressed to the node or to broadcast are considered,  *)
 (* and those are answered iff held and covered                              *)
-ArpFilter(st, ann, Ops, Dsts, Targets, Resp) ==
-  \A o \in Ops, d \in Dsts, t \in Targets, r \in Resp :
-     (ArpRes(st, o, d, t, r) = "reply") <=> (o = "request" /\ d \in {"self", "bcast"} /\ SpecHolds(ann, t, r))
+ArpFilter(st, ann, Ops, Dsts, Thas, Targets, Resp) ==
+  \A o \in Ops, d \in Dsts, h \in Thas, t \in Targets, r \in Resp :
+     (ArpRes(st, o, d, h, t, r) = "reply") <=> (o = "request" /\ d \in {"self", "bcast"} /\ SpecHolds(ann, t, r))
 
 (* a held IPv6 address has its solicited-node group watched; the counter is *)
 (* the number of held addresses of the group                                *)
